@@ -10,7 +10,7 @@ from mc import core, ghost
 PROPERTY = 'C05'
 LEVEL = 'model_checking'
 RULE = ('every ordered event tree with <= N nodes (fan-out <= 2, depth <= 3 below the root) x per non-root node '
-        '(edge kind: fired by the plain handler | fired by a later generator step) x (mark: none | cancelled right after '
+        '(edge kind: fired by the plain handler | fired by a later generator step | called with `yield self.call()` | fired after such a call returned) x (mark: none | cancelled right after '
         'firing (leaves) | stopped by its first handler | raising | without any handler (leaves)) x root mark x variants (nested complete-requesting '
         'descendant, two simultaneous roots); non-trivial = tree with >= 2 levels or any mark/generator edge; '
         'distinct = distinct program')
@@ -74,6 +74,47 @@ def programs(tier):
                     yield par, edges, (rootmark,) + marks, v
 
 
+def programs_call(tier):
+    """trees whose generator handlers also `yield self.call(child)` ('call' edge) and fire further children after the call
+    returned ('post' edge: fired from the step that resumes the handler with the call's result)"""
+    maxn = 4 if tier == 'quick' else 5
+    kinds = ('plain', 'gen', 'call', 'post')
+    for par in shapes(maxn):
+        n = len(par)
+        if n < 2:
+            continue
+        leaves = [i for i in range(1, n) if i not in par[1:]]
+        opts = []
+        for i in range(1, n):
+            ms = ('none', 'raise', 'nohandler') if i in leaves else ('none', 'raise')
+            opts.append([(e, m) for e in kinds for m in ms])
+        for combo in itertools.product(*opts):
+            edges = (None,) + tuple(c[0] for c in combo)
+            if 'call' not in edges:
+                continue        # covered by programs()
+            ok = True
+            for j in range(1, n):
+                if edges[j] == 'post' and not any(par[k] == par[j] and edges[k] == 'call' and k < j for k in range(1, n)):
+                    ok = False
+            if not ok:
+                continue
+            marks = tuple(c[1] for c in combo)
+            yield par, edges, ('none',) + marks, 'single'
+    # deep sub-trees below an event fired after a call returned (what is fired there must still belong to the closure)
+    for depth in (2, 3, 4):
+        for first in ('call', 'gen'):
+            par = [None, 0, 0] + [2 + k for k in range(depth)]
+            edges = [None, first, 'post' if first == 'call' else 'gen'] + ['plain'] * depth
+            for deep_edge in ('plain', 'gen'):
+                e2 = list(edges)
+                e2[3] = deep_edge
+                yield tuple(par), tuple(e2), ('none',) * len(par), 'single'
+    # ... and below the called event itself
+    for depth in (3, 4, 5):
+        par = [None, 0] + [1 + k for k in range(depth)]
+        yield tuple(par), (None, 'call') + ('plain',) * depth, ('none',) * len(par), 'single'
+
+
 def build(program):
     par, edges, marks, variant = program
     n = len(par)
@@ -92,9 +133,13 @@ def build(program):
             return ('fire', 'n%d' % j, o)
         pk = [fire(j) for j in kids if edges[j] == 'plain']
         gk = [fire(j) for j in kids if edges[j] == 'gen']
+        ck = [('call', 'n%d' % j, fire(j)[2]) for j in kids if edges[j] == 'call']
+        ok = [fire(j) for j in kids if edges[j] == 'post']
         steps = list(pk)
-        if gk:
-            steps += [('y', None)] + gk
+        if gk or ck or ok:
+            if gk:
+                steps += [('y', None)] + gk
+            steps += ck + ok
             if marks[i] == 'raise':
                 steps.append(('raise',))
             script = ('gen', steps)
@@ -177,7 +222,7 @@ def judge(program, w, res):
 
 def gen_hids(program):
     par, edges, marks, variant = program
-    return {'h%d' % par[j] for j in range(1, len(par)) if edges[j] == 'gen'}
+    return {'h%d' % par[j] for j in range(1, len(par)) if edges[j] in ('gen', 'call', 'post')}
 
 
 def pj(program):
@@ -194,7 +239,7 @@ def _work(part, nparts, payload):
     tier, seed = payload
     core.quiet_stderr()
     st = core.Stats()
-    for idx, program in enumerate(itertools.islice(programs(tier), part, None, nparts)):
+    for idx, program in enumerate(itertools.islice(itertools.chain(programs(tier), programs_call(tier)), part, None, nparts)):
         w, res = execute(program)
         st.executions += 1
         st.transitions += len(w.log)
@@ -208,6 +253,8 @@ def _work(part, nparts, payload):
             st.counters['programs_with_handlerless_descendant'] += 1
         if 'gen' in program[1]:
             st.counters['programs_firing_from_generator_steps'] += 1
+        if 'call' in program[1]:
+            st.counters['programs_with_call_edges'] += 1
         if part == seed % nparts and idx in (3, 400):
             st.sample({'program': pj(program), 'log': [list(x) for x in w.log][:50]})
         for kind, text in bad:
@@ -216,7 +263,7 @@ def _work(part, nparts, payload):
 
 
 def run(tier, seed, workers):
-    total = sum(1 for _ in programs(tier))
+    total = sum(1 for _ in programs(tier)) + sum(1 for _ in programs_call(tier))
     st = core.parallel(_work, (tier, seed), workers, nparts=workers * 8)
     probe = ((None, 0, 1), (None, 'gen', 'plain'), ('none', 'none', 'stop'), 'single')
     if execute(probe)[0].log != execute(probe)[0].log:
